@@ -166,21 +166,31 @@ def build_world(es, loop_ref, lazy=False):
     sources = {nm: (G.render_source(t) if not isinstance(t, str) else t) + "[{{ tg }}]"
                for nm, t in es["templates"].items()}
     kind = es["loader"]
-    kw = dict(auto_reload=es["auto_reload"], namespace_key=es["ns_key"], capacity=es["capacity"])
+    ns_key = es.get("ns_key") or ""
+    kw = dict(auto_reload=es["auto_reload"], namespace_key=ns_key, capacity=es["capacity"])
     store = {("", nm): src for nm, src in sources.items()}
+    if ns_key:      # every tenant has its own variant of every named template
+        for ns in ("u1", "u2"):
+            for nm, src in sources.items():
+                store[(ns, nm)] = "<%s>%s" % (ns, src)
     if kind == "dict":
         ld = DictLoader(dict(sources))
     elif kind == "cdict":
         ld = CachingDictLoader(dict(sources), **kw)
     elif kind == "sim":
-        ld = StaticSimLoader(store, loop_ref, "fs-like", matter=True, namespaced=False)
+        ld = StaticSimLoader(store, loop_ref, "fs-like", matter=True, namespaced=bool(ns_key))
     elif kind == "csim":
         ld = CachingSimLoader(store, loop_ref, "fs-like", **kw)
     else:
         names = sorted(sources)
+        rest = {k: v for k, v in store.items() if k[1] in names[1::2]}
         subs = [DictLoader({n: sources[n] for n in names[::2]}),
-                StaticSimLoader({("", n): sources[n] for n in names[1::2]}, loop_ref, "sync", namespaced=False)]
-        ld = ChoiceLoader(subs) if kind == "choice" else CachingChoiceLoader(subs, **kw)
+                StaticSimLoader(rest, loop_ref, "sync", namespaced=bool(ns_key))]
+        if es.get("factory"):
+            ld = liquid.make_choice_loader(subs, auto_reload=es["auto_reload"], namespace_key=ns_key,
+                                           cache_size=es["capacity"] if kind == "cchoice" else 0)
+        else:
+            ld = ChoiceLoader(subs) if kind == "choice" else CachingChoiceLoader(subs, **kw)
     env = G.build_env({**es["recipe"], "globals": {**es["recipe"]["globals"], "tg": "E"}}, ld)
     main_src = [G.render_source(t) if not isinstance(t, str) else t for t in es["mains"]]
     if lazy:
@@ -189,13 +199,17 @@ def build_world(es, loop_ref, lazy=False):
     return env, mains, main_src
 
 
+def _nskw(op):
+    return {NS_KEY: op["ns"]} if op.get("ns") is not None else {}
+
+
 def get_target(env, mains, op):
     if "main" in op:
         t = mains[op["main"]]
         if t[0] == "err":
             raise type(t[1], (Exception,), {})()
         return t[1]
-    return env.get_template(op["name"], globals=op.get("tglobals"))
+    return env.get_template(op["name"], globals=op.get("tglobals"), **_nskw(op))
 
 
 async def get_target_async(env, mains, op):
@@ -204,7 +218,7 @@ async def get_target_async(env, mains, op):
         if t[0] == "err":
             raise type(t[1], (Exception,), {})()
         return t[1]
-    return await env.get_template_async(op["name"], globals=op.get("tglobals"))
+    return await env.get_template_async(op["name"], globals=op.get("tglobals"), **_nskw(op))
 
 
 def norm(o):
@@ -410,8 +424,11 @@ class C17:
                 for _ in range(rng.randint(1, 2)):
                     mains.insert(rng.randint(0, len(mains)), rng.choice(BAD_MAINS))
                 mains.insert(rng.randint(0, len(mains)), rng.choice(DEEP_OK_MAINS))
-            envs.append({"recipe": recipe, "loader": rng.choice(["dict", "cdict", "sim", "csim", "choice", "cchoice"]),
-                         "ns_key": "", "capacity": rng.choice([1, 2, 300]), "auto_reload": rng.chance(0.7),
+            lkind = rng.choice(["dict", "cdict", "sim", "csim", "choice", "cchoice"])
+            envs.append({"recipe": recipe, "loader": lkind,
+                         "ns_key": NS_KEY if lkind in ("sim", "csim", "choice", "cchoice") and rng.chance(0.4) else "",
+                         "factory": rng.chance(0.3),
+                         "capacity": rng.choice([1, 2, 300]), "auto_reload": rng.chance(0.7),
                          "templates": templates, "mains": mains})
         datas = []
         for _ in range(rng.randint(1, 3)):
@@ -450,6 +467,8 @@ class C17:
             else:
                 op["name"] = rng.choice(list(envs[e]["templates"]))
             op["mode"] = rng.choice(["sync", "async"])
+            if "name" in op and envs[e]["ns_key"]:
+                op["ns"] = rng.choice([None, "u1", "u2", "u1"])     # the tenant this request is for
             if with_tglobals and "name" in op:
                 # request globals on a (possibly cached, shared) template: a render captures the
                 # template's globals in the same step in which its request returns (sync: one call;
@@ -512,6 +531,8 @@ class C17:
                 return {k: tw(x) for k, x in v.items()}
             return v
         out = {"vars": {k: tw(v) for k, v in d["vars"].items()}, "drops": list(d["drops"]), "twin": True}
+        if d.get("seqtypes"):
+            out["seqtypes"] = dict(d["seqtypes"])
         sp = d.get("special", {})
         if "dt" in sp and sp["dt"][0] == "dtz":
             out["special"] = {"dt": ["dtz", sp["dt"][1], rng.choice([0, 5, -8, 3])], "dt2": sp["dt2"]}
@@ -582,7 +603,7 @@ class C17:
             probe = {"kind": "implicit", "source": src, "kwargs": op["kwargs"], "data": dspec, "clock": p["clock"]}
             key = digest(("imp", src, op["kwargs"], dspec, p["clock"]))
         else:
-            tgt = {k: op[k] for k in ("main", "name", "tglobals") if k in op}
+            tgt = {k: op[k] for k in ("main", "name", "tglobals", "ns") if k in op}
             probe = {"kind": "render", "env": sc["envs"][e], "op": tgt, "data": dspec, "clock": p["clock"],
                      "mode": p["mode"]}
             key = digest(("r", sc["envs"][e], tgt, dspec, p["clock"], p["mode"]))
